@@ -282,7 +282,7 @@ func checkSnapshotWriteBack(P *core.Program, R *core.Report, rule string, subjec
 			rec := args[len(args)-1]
 			// which load produced the record written back?
 			var loads []ssa.CallInstruction
-			for _, o := range ff.Origins(rec) {
+			for _, o := range recordOrigins(ff, rec) {
 				if c, ok := o.Val.(*ssa.Call); ok && o.Kind == "call" && isLoad(c) {
 					loads = append(loads, c)
 				}
@@ -297,6 +297,26 @@ func checkSnapshotWriteBack(P *core.Program, R *core.Report, rule string, subjec
 						continue
 					}
 					if !(core.Dominates(ld, mid) || reachesInstr(fn, ld, mid)) || !reachesInstr(fn, mid, st) {
+						continue
+					}
+					// a call that receives this very snapshot (an earlier store of it, a helper
+					// working on it) is a sibling use, not an independent load
+					// an earlier store of this very snapshot, or a helper that works on it in
+					// place (receives its address), is a sibling use, not an independent load; a
+					// callee that gets a *copy* and stores its own updated version is not
+					sibling := false
+					for _, ma := range mid.Common().Args {
+						_, byPtr := ma.(*ssa.Alloc)
+						if !byPtr && !calleeMatches(P, mid, storeKey) {
+							continue
+						}
+						for _, mo := range recordOrigins(ff, ma) {
+							if mo.Val == ld.Value() {
+								sibling = true
+							}
+						}
+					}
+					if sibling {
 						continue
 					}
 					for _, t := range P.Callees(mid) {
